@@ -10,7 +10,7 @@
    by hand: it is regenerated into C14/Gen.v on every run. *)
 From Coq Require Import ZArith NArith List Bool Lia.
 Import ListNotations.
-From Cffi Require Import C14.Spec C14.Gen.
+From Cffi Require Import C14.Spec C14.Gic C14.Gen.
 Open Scope Z_scope.
 
 (* ------------------------------------------------------------------ extern "Python": the 8-byte slot protocol *)
@@ -18,12 +18,16 @@ Open Scope Z_scope.
 (* general_invoke_callback, decode_args_from_libffi == 0:
        a_src = args + i * 8;
        if (a_ct->ct_flags & (CT_IS_LONGDOUBLE | CT_STRUCT | CT_UNION)) a_src = [load a pointer from a_src]      *)
-Definition backend_slot (i : Z) : Z := i * 8.
+(* the stride and the flag set are REGENERATED from that statement (C14/Gen.v: gic_slot_stride, gic_deref_longdouble etc.);
+   which types carry which flag is new_primitive_type / new_struct_or_union_type's business (hand-written here):
+   CT_IS_LONGDOUBLE is set for the primitive named "long double", CT_STRUCT / CT_UNION for struct / union types *)
+Definition backend_slot (i : Z) : Z := i * gic_slot_stride.
 Definition backend_deref (t : xtype) : bool :=
   match t with
-  | XPrim n _ => name_eqb n LONG_DOUBLE          (* CT_IS_LONGDOUBLE is set for the primitive named "long double" *)
-  | XStruct _ | XUnion _ => true         (* CT_STRUCT | CT_UNION *)
-  | _ => false
+  | XPrim n _ => (gic_deref_longdouble && name_eqb n LONG_DOUBLE) || gic_deref_other
+  | XStruct _ => gic_deref_struct || gic_deref_other
+  | XUnion _ => gic_deref_union || gic_deref_other
+  | _ => gic_deref_other
   end.
 (* bytes the backend reads at the slot: a pointer, or the value itself (convert_to_object reads ct_size bytes) *)
 Definition backend_read_bytes (t : xtype) : Z := if backend_deref t then 8 else sizeof t.
@@ -133,7 +137,8 @@ Definition rawerr (encode : bool) (k : rkind) (error : option pyret) : option (l
   end.
 
 (* ------------------------------------------------------------------ the error / onerror protocol *)
-Inductive body := BReturns (x : pyret) | BRaises.
+Inductive body := BReturns (x : pyret) | BRaises
+                | BArgFail.                (* convert_to_object of a C argument failed (`goto error` before the call) *)
 Inductive onerr := ONone                   (* no onerror= *)
                  | OReturnsNone | OReturns (x : pyret) | ORaises.
 
@@ -151,7 +156,7 @@ Definition write (s : st) (w : list Z) := mkst (overwrite (buf s) w) (pending s)
 Definition invoke (encode : bool) (k : rkind) (err_bytes : list Z) (b : body) (oe : onerr) (buf0 : list Z) : st :=
   let s0 := mkst buf0 false 0 in
   (* py_res = PyObject_Call(...); convert_from_object_fficallback(result, ...) *)
-  let attempt := match b with BReturns x => fficallback encode k x | BRaises => None end in
+  let attempt := match b with BReturns x => fficallback encode k x | BRaises | BArgFail => None end in
   match attempt with
   | Some w => write s0 w                                  (* done: *)
   | None =>
@@ -182,3 +187,93 @@ Definition invoke (encode : bool) (k : rkind) (err_bytes : list Z) (b : body) (o
 
 (* what the C caller reads back: the first rsize bytes of the result area *)
 Definition c_receives (k : rkind) (s : st) : list Z := firstn (rsize k) (buf s).
+
+(* ------------------------------------------------------------------ the REGENERATED general_invoke_callback
+   Meaning of the statement tree C14/Gen.v:gic_prog (syntax: C14/Gic.v) over the same state and the same inputs as the
+   hand state machine `invoke` above.  C14/Proofs2.v proves that running the regenerated tree leaves no exception
+   pending and agrees with `invoke`. *)
+Record genv := mkgenv { g_encode : bool; g_k : rkind; g_eb : list Z; g_b : body; g_oe : onerr }.
+
+Inductive outcome := ONormal | OGoto (l : glabel) | OReturned.
+
+(* convert_from_object_fficallback(result, SIGNATURE(1), x, decode_args_from_libffi) < 0, with its effects: the bytes
+   written (also the partial ones of a failed conversion) and the exception a failure sets *)
+Definition eval_conv (e : genv) (x : pyret) (s : st) : bool * st :=
+  match fficallback_full (g_encode e) (g_k e) x with
+  | FOk w => (false, write s w)
+  | FFail partial => (true, set_exc (write s partial))
+  end.
+
+Fixpoint eval_cond (e : genv) (c : gcond) (s : st) : bool * st :=
+  match c with
+  | CAllocFailed => (false, s)                  (* memory exhaustion is outside the model *)
+  | CDecode => (g_encode e, s)
+  | CArgDeref => (false, s)                     (* where an argument is read from does not touch this state *)
+  | CArgNull => (match g_b e with BArgFail => true | _ => false end, s)
+  | CBodyNull => (match g_b e with BReturns _ => false | _ => true end, s)
+  | CConvBody => match g_b e with BReturns x => eval_conv e x s | _ => (true, set_exc s) end
+  | CSizePos => (Nat.ltb 0 (rsize (g_k e)), s)
+  | COnerrNone => (match g_oe e with ONone => true | _ => false end, s)
+  | CRes1NotNull => (match g_oe e with ORaises | ONone => false | _ => true end, s)
+  | CRes1NotNone => (match g_oe e with OReturns _ => true | _ => false end, s)
+  | CConvRes1 => match g_oe e with OReturns x => eval_conv e x s | _ => (true, set_exc s) end
+  | CNoErr => (negb (pending s), s)
+  | CAnd a c' => let (r, s') := eval_cond e a s in if r then eval_cond e c' s' else (false, s')
+  end.
+
+Fixpoint exec_stmt (e : genv) (g : gstmt) (s : st) : outcome * st :=
+  match g with
+  | SSkip | SNop => (ONormal, s)
+  | SConvertArg => (ONormal, match g_b e with BArgFail => set_exc s | _ => s end)
+  | SCallBody => (ONormal, match g_b e with BReturns _ => s | _ => set_exc s end)
+  | SMemcpyErr => (ONormal, write s (g_eb e))
+  | SFetch => (ONormal, fetch s)
+  | SWriteUnraisable => (ONormal, write_unraisable s)
+  | SCallOnerror => (ONormal, match g_oe e with ORaises | ONone => set_exc s | _ => s end)
+  | SGoto l => (OGoto l, s)
+  | SReturn => (OReturned, s)
+  | SFor body => exec_stmt e body s             (* one representative iteration of the argument loop *)
+  | SIf c t f => let (r, s') := eval_cond e c s in if r then exec_stmt e t s' else exec_stmt e f s'
+  | SSeq a c => match exec_stmt e a s with (ONormal, s') => exec_stmt e c s' | r => r end
+  end.
+
+Definition glabel_eqb (a c : glabel) : bool :=
+  match a, c with LDone, LDone | LError, LError => true | _, _ => false end.
+
+(* the blocks from the one labelled l on *)
+Fixpoint find_block (l : glabel) (p : gprog) : option gprog :=
+  match p with
+  | [] => None
+  | (Some l', g) :: t => if glabel_eqb l l' then Some p else find_block l t
+  | (None, _) :: t => find_block l t
+  end.
+
+(* None = no `return;` reached: fell off the end, jumped to a missing label, or more than `fuel` blocks entered *)
+Fixpoint run_blocks (e : genv) (whole : gprog) (fuel : nat) (p : gprog) (s : st) : option st :=
+  match fuel with
+  | O => None
+  | S fuel' =>
+      match p with
+      | [] => None
+      | (_, g) :: t =>
+          match exec_stmt e g s with
+          | (ONormal, s') => run_blocks e whole fuel' t s'
+          | (OReturned, s') => Some s'
+          | (OGoto l, s') => match find_block l whole with
+                             | Some p' => run_blocks e whole fuel' p' s'
+                             | None => None
+                             end
+          end
+      end
+  end.
+
+(* a program that does not return is reported as a state with an exception pending, so that it cannot satisfy
+   C14_gen_no_escape by accident *)
+Definition stuck : st := mkst [] true 0.
+
+Definition exec_gic (p : gprog) (encode : bool) (k : rkind) (err_bytes : list Z) (b : body) (oe : onerr)
+                    (buf0 : list Z) : st :=
+  match run_blocks (mkgenv encode k err_bytes b oe) p 8 p (mkst buf0 false 0) with
+  | Some s => s
+  | None => stuck
+  end.
